@@ -27,14 +27,14 @@ Theorem reply_owned : forall lookup d,
     (forall lk now m, In m (snd (fire_timers lk now d)) -> owned_reply d (fst (fire_timers lk now d)) m) /\
     (forall lk sid m, In m (snd (fst (dealer_remove_session lk d sid))) ->
         owned_reply d (fst (fst (dealer_remove_session lk d sid))) m) /\
-    (* YIELD: a final RESULT consumes the call (also while the caller is still sending chunks) *)
-    (forall callee req opts args kw m, In m (snd (sync_yield d callee req opts args kw)) ->
+    (* YIELD: the final reply (RESULT, or ERROR(CALL) for an undeliverable passthru result) consumes the call *)
+    (forall lk callee req opts args kw m, In m (snd (sync_yield lk d callee req opts args kw)) ->
         forall cid fin, reply_of m = Some (cid, fin) ->
           cget (d_calls d) cid = Some (fst cid) /\
           exists inv, cget (d_invs d) (callee, req) = Some inv /\ inv_call inv = cid /\
                       fin = negb (opt_bool opts "progress") /\
                       (fin = true ->
-                       cget (d_calls (fst (sync_yield d callee req opts args kw))) cid = None)) /\
+                       cget (d_calls (fst (sync_yield lk d callee req opts args kw))) cid = None)) /\
     (* CALL: only refusals of the CALL being processed; every refusal leaves that call unrecorded
        (a refused further chunk ends the pending call; a refused first chunk changes no call table) *)
     (forall cfg now caller req opts proc args kw oracle m,
@@ -55,7 +55,7 @@ Example reply_owned_ex :
     dealer_wf (lk 1 0) d3 /\
     (exists m, In m (snd (sync_error d3 11 1 [] "com.err" [] [])) /\ reply_of m = Some ((10, 7), true)) /\
     cget (d_calls d3) (10, 7) = Some 10 /\ cget (d_calls (fst (sync_error d3 11 1 [] "com.err" [] []))) (10, 7) = None /\
-    (exists m, In m (snd (sync_yield d3 11 1 [("progress", VBool true)] [] [])) /\ reply_of m = Some ((10, 7), false)).
+    (exists m, In m (snd (sync_yield (lk 1 0) d3 11 1 [("progress", VBool true)] [] [])) /\ reply_of m = Some ((10, 7), false)).
 Proof.
   split; [exact wf_d3|]. split; [eexists; vm_compute; split; [left; reflexivity | reflexivity]|].
   split; [vm_compute; reflexivity|]. split; [vm_compute; reflexivity|].
@@ -103,7 +103,7 @@ Example prompt_unroutable_ex :
     dealer_wf (lk 1 0) dp2 /\ cget (d_bycall dp2) (10, 9) = Some (11, 1) /\
     call cfg0 (lk 1 0) 6 dp2 s10 9 [] "net.solo" [] [] 0 =
     CallRefused dp3 [(10, RError c_CALL 9 [] e_no_such_procedure [] [])] /\
-    gone dp3 (10, 9) (11, 1) /\ sync_yield dp3 11 1 [] [vnat 42] [] = (dp3, []).
+    gone dp3 (10, 9) (11, 1) /\ sync_yield (lk 1 0) dp3 11 1 [] [vnat 42] [] = (dp3, []).
 Proof.
   assert (H : match_procedure d2s "net.other" 0 = None) by (vm_compute; reflexivity).
   apply (best_match_none (lk 0 0) d2s wf_d2s) in H. destruct H as (H1 & H2 & H3).
@@ -112,15 +112,52 @@ Proof.
   vm_compute. repeat split; reflexivity.
 Qed.
 
-(** the owner's final YIELD *)
-Theorem prompt_yield_final : forall lookup d callee req opts args kw inv,
+(** the owner's final YIELD: the output contains the caller's final reply
+    (the RESULT; or ERROR(CALL) when a passthru result cannot be delivered),
+    everything else goes back to the yielding callee, and the call is erased *)
+Theorem prompt_yield_final : forall lookup lk d callee req opts args kw inv,
     dealer_wf lookup d -> cget (d_invs d) (callee, req) = Some inv ->
     opt_bool opts "progress" = false ->
     let cid := inv_call inv in
-    exists d', sync_yield d callee req opts args kw = (d', [(fst cid, RResult (snd cid) [] args kw)]) /\
-               gone d' cid (callee, req).
+    exists d' o, sync_yield lk d callee req opts args kw = (d', o) /\
+                 gone d' cid (callee, req) /\
+                 (exists m, In m o /\ reply_of m = Some (cid, true)) /\
+                 (forall m, In m o -> reply_of m = Some (cid, true) \/ (fst m = callee /\ reply_of m = None)) /\
+                 (ppt_active opts = false -> o = [(fst cid, RResult (snd cid) [] args kw)]).
 Proof. exact prompt_yield_final_proof. Qed.
 Print Assumptions prompt_yield_final.
+
+(** a final passthru YIELD that cannot be delivered still ends the call: the
+    caller gets ERROR(CALL) bearing its own request id (the repaired defect) *)
+Theorem yield_ppt_undeliverable_ends_call : forall lookup lk d callee req opts args kw inv,
+    dealer_wf lookup d -> cget (d_invs d) (callee, req) = Some inv ->
+    opt_bool opts "progress" = false -> ppt_active opts = true ->
+    let cid := inv_call inv in
+    has_ppt lk callee "callee" = false \/ has_ppt lk (fst cid) "caller" = false ->
+    exists d' o, sync_yield lk d callee req opts args kw = (d', o) /\
+                 gone d' cid (callee, req) /\
+                 In (fst cid, RError c_CALL (snd cid) ppt_error_details e_feature_not_supported [] []) o /\
+                 (forall m, In m o ->
+                    m = (fst cid, RError c_CALL (snd cid) ppt_error_details e_feature_not_supported [] []) \/
+                    m = (callee, RAbort [("message", vstr "<text>")] e_protocol_violation) \/
+                    m = (callee, RError c_YIELD req ppt_error_details e_feature_not_supported [] [])) /\
+                 (yield_aborts lk d callee req opts = true -> has_ppt lk callee "callee" = false) /\
+                 (has_ppt lk callee "callee" = false -> In (callee, RAbort [("message", vstr "<text>")] e_protocol_violation) o).
+Proof. exact yield_ppt_undeliverable_ends_call_proof. Qed.
+Print Assumptions yield_ppt_undeliverable_ends_call.
+
+Example yield_ppt_undeliverable_ex :
+    dealer_wf (lk 1 1) d5 /\
+    (exists inv, cget (d_invs d5) (12, 1) = Some inv /\ inv_call inv = (10, 8)) /\
+    ppt_active ppt_opts = true /\ has_ppt (lk 1 1) 12 "callee" = false /\
+    snd (sync_yield (lk 1 1) d5 12 1 ppt_opts [vnat 1] []) =
+      [(10, RError c_CALL 8 ppt_error_details e_feature_not_supported [] []);
+       (12, RAbort [("message", vstr "<text>")] e_protocol_violation)] /\
+    gone (fst (sync_yield (lk 1 1) d5 12 1 ppt_opts [vnat 1] [])) (10, 8) (12, 1).
+Proof.
+  split; [exact wf_d5|]. split; [eexists; vm_compute; split; reflexivity|].
+  vm_compute. repeat split; reflexivity.
+Qed.
 
 (** the owner's ERROR *)
 Theorem prompt_error : forall lookup d callee req det err args kw inv,
@@ -133,8 +170,8 @@ Print Assumptions prompt_error.
 
 Example prompt_answer_ex :
     (exists inv, cget (d_invs d3) (11, 1) = Some inv /\ inv_call inv = (10, 7)) /\
-    snd (sync_yield d3 11 1 [] [vnat 1] []) = [(10, RResult 7 [] [vnat 1] [])] /\
-    gone (fst (sync_yield d3 11 1 [] [vnat 1] [])) (10, 7) (11, 1).
+    snd (sync_yield (lk 1 0) d3 11 1 [] [vnat 1] []) = [(10, RResult 7 [] [vnat 1] [])] /\
+    gone (fst (sync_yield (lk 1 0) d3 11 1 [] [vnat 1] [])) (10, 7) (11, 1).
 Proof. split; [eexists|]; vm_compute; repeat split; reflexivity. Qed.
 
 (** the callee's session ends: every call it was serving is answered
@@ -203,9 +240,9 @@ Qed.
 (** ** Junk is harmless: YIELD / ERROR for an invocation the sender does not
     own, CANCEL for an unknown / foreign / finished / already cancelled call *)
 Theorem junk_harmless : forall lookup d sid req,
-    (forall opts args kw, cget (d_invs d) (sid, req) = None ->
-       fst (sync_yield d sid req opts args kw) = d /\
-       forall m, In m (snd (sync_yield d sid req opts args kw)) ->
+    (forall lk opts args kw, cget (d_invs d) (sid, req) = None ->
+       fst (sync_yield lk d sid req opts args kw) = d /\
+       forall m, In m (snd (sync_yield lk d sid req opts args kw)) ->
                  m = (sid, RInterrupt req [("mode", vstr "killnowait")]) /\ opt_bool opts "progress" = true) /\
     (forall det err args kw, cget (d_invs d) (sid, req) = None ->
        sync_error d sid req det err args kw = (d, [])) /\
@@ -221,8 +258,8 @@ Print Assumptions junk_harmless.
 
 Example junk_harmless_ex :
     cget (d_invs d3) (12, 1) = None /\ cget (d_invs d3) (11, 2) = None /\
-    sync_yield d3 12 1 [] [vnat 1] [] = (d3, []) /\
-    sync_yield d3 11 2 [("progress", VBool true)] [] [] = (d3, [(11, RInterrupt 2 [("mode", vstr "killnowait")])]) /\
+    sync_yield (lk 1 0) d3 12 1 [] [vnat 1] [] = (d3, []) /\
+    sync_yield (lk 1 0) d3 11 2 [("progress", VBool true)] [] [] = (d3, [(11, RInterrupt 2 [("mode", vstr "killnowait")])]) /\
     sync_error d3 12 1 [] "x" [] [] = (d3, []).
 Proof. vm_compute. repeat split; reflexivity. Qed.
 
@@ -233,8 +270,8 @@ Theorem calls_grow_only_by_call : forall lookup d,
     dealer_wf lookup d ->
     (forall lk caller req opts c x,
         cget (d_calls (fst (cancel lk d caller req opts))) c = Some x -> cget (d_calls d) c = Some x) /\
-    (forall callee req opts args kw c x,
-        cget (d_calls (fst (sync_yield d callee req opts args kw))) c = Some x -> cget (d_calls d) c = Some x) /\
+    (forall lk callee req opts args kw c x,
+        cget (d_calls (fst (sync_yield lk d callee req opts args kw))) c = Some x -> cget (d_calls d) c = Some x) /\
     (forall callee req det err args kw c x,
         cget (d_calls (fst (sync_error d callee req det err args kw))) c = Some x -> cget (d_calls d) c = Some x) /\
     (forall lk now c x,
